@@ -5,20 +5,24 @@ package main
 // first generators did not reach. They run after the owning property's generator.
 
 import (
-	"strings"
 	"bytes"
 	"crypto/hmac"
 	"crypto/sha256"
 	"crypto/sha512"
 	"fmt"
+	"io"
 	"math/big"
 	"strconv"
+	"strings"
 
 	"github.com/kklash/bitcoinlib/bech32"
 	"github.com/kklash/bitcoinlib/bip32"
+	"github.com/kklash/bitcoinlib/blocks"
+	"github.com/kklash/bitcoinlib/blocks/blockheader"
 	"github.com/kklash/bitcoinlib/ecc"
 	"github.com/kklash/bitcoinlib/script"
 	"github.com/kklash/bitcoinlib/tx"
+	"github.com/kklash/bitcoinlib/varint"
 	"github.com/kklash/ekliptic"
 )
 
@@ -571,6 +575,101 @@ func init() {
 					r.Do("bip32.master", []string{hx(r.bytesN(l))}, "master/len-wrapped", false, fmt.Sprintf("seed of %d bytes", l))
 				}
 			}
+		}
+	})
+}
+
+// ---- C02: byte counts of WriteTo with writers that fail part-way --------------------------------------
+
+// limitWriter accepts `left` more bytes. partial=true: a write that does not fit is accepted up to
+// the limit and then fails (what a full disk or a closed pipe does); partial=false: it is refused whole.
+type limitWriter struct {
+	left    int
+	partial bool
+	got     []byte
+}
+
+func (l *limitWriter) Write(p []byte) (int, error) {
+	if len(p) <= l.left {
+		l.left -= len(p)
+		l.got = append(l.got, p...)
+		return len(p), nil
+	}
+	if !l.partial {
+		return 0, io.ErrShortWrite
+	}
+	n := l.left
+	l.left = 0
+	l.got = append(l.got, p[:n]...)
+	return n, io.ErrShortWrite
+}
+
+func init() {
+	reg("c02.writeto.partial", GoOnly, func(a []string) (string, []string) {
+		t, err := tx.FromBytes(unhx(a[0]))
+		if err != nil {
+			return "err", nil
+		}
+		var direct []string
+		type wt struct {
+			name string
+			w    io.WriterTo
+			ref  []byte
+		}
+		hdr := &blockheader.BlockHeader{Version: t.Version, Time: t.Locktime, NBits: 0x1d00ffff, Nonce: uint32(len(t.Inputs))}
+		blk := &blocks.Block{Header: hdr, Transactions: []*tx.Tx{t}}
+		targets := []wt{{"Tx.WriteTo", t, t.Bytes()}, {"BlockHeader.WriteTo", hdr, hdr.Bytes()}, {"Block.WriteTo", blk, blk.Bytes()},
+			{"VarInt.WriteTo", varint.VarInt(len(t.Inputs[0].Script) * 997), varint.VarInt(len(t.Inputs[0].Script) * 997).Bytes()},
+			{"VarInt.WriteTo", varint.VarInt(uint64(t.Locktime) << 8), varint.VarInt(uint64(t.Locktime) << 8).Bytes()}}
+		for _, in := range t.Inputs {
+			targets = append(targets, wt{"Input.WriteTo", in, in.Bytes()}, wt{"PrevOut.WriteTo", in.PrevOut, in.PrevOut.Bytes()})
+		}
+		for _, o := range t.Outputs {
+			targets = append(targets, wt{"Output.WriteTo", o, o.Bytes()})
+		}
+		for _, w := range t.Witnesses {
+			targets = append(targets, wt{"Witness.WriteTo", w, w.Bytes()})
+		}
+		cases := 0
+		for _, tg := range targets {
+			total := len(tg.ref)
+			step := 1
+			if total > 400 {
+				step = 1 + total/400
+			}
+			for lim := 0; lim <= total; lim += step {
+				for _, partial := range []bool{true, false} {
+					lw := &limitWriter{left: lim, partial: partial}
+					n, err := tg.w.WriteTo(lw)
+					cases++
+					if int(n) != len(lw.got) {
+						direct = append(direct, fmt.Sprintf("%s into a writer that fails after %d of %d bytes (partial writes %v) returned n=%d but the writer accepted %d bytes", tg.name, lim, total, partial, n, len(lw.got)))
+					}
+					if (err == nil) != (lim >= total) || !bytes.HasPrefix(tg.ref, lw.got) || (partial && len(lw.got) != lim) {
+						direct = append(direct, fmt.Sprintf("%s into a writer with room for %d of %d bytes: err=%v, %d bytes accepted, prefix of the serialisation: %v", tg.name, lim, total, err, len(lw.got), bytes.HasPrefix(tg.ref, lw.got)))
+					}
+					if len(direct) > 3 {
+						return "ok", direct
+					}
+				}
+			}
+		}
+		// WriteToNoWitness as well
+		ref := t.BytesNoWitness()
+		for lim := 0; lim <= len(ref); lim += 1 + len(ref)/200 {
+			lw := &limitWriter{left: lim, partial: true}
+			n, _ := t.WriteToNoWitness(lw)
+			if int(n) != len(lw.got) {
+				direct = append(direct, fmt.Sprintf("Tx.WriteToNoWitness into a writer that fails after %d bytes returned n=%d but the writer accepted %d bytes", lim, n, len(lw.got)))
+				break
+			}
+		}
+		return fmt.Sprintf("ok %d", cases), direct
+	})
+	regExtra("C02", func(r *Runner) {
+		for i := 0; i < r.N(40, 1500); i++ {
+			t, b := r.genTx(3, 3)
+			r.Do("c02.writeto.partial", []string{hx(t.Bytes())}, "writeto-failing-writer", b, "")
 		}
 	})
 }
